@@ -188,12 +188,13 @@ def legal(cls, act):
 
 
 def single_rules(tier):
+    """Ordered cheapest first: by total rule length, unconstrained rules before constrained ones (a deadline cut loses the largest, most redundant part)."""
     thorough = tier == 'thorough'
     body_classes = [IA, IAB, IBC] if not thorough else [IA, IB, IAB, IBC, IABCD]
-    for p in (0, 1, 2):
-        for precls in ([()] if p == 0 else [tuple([IAB] * p), tuple([IABCD] * p)]):
-            for n in (1, 2, 3):
-                if p + n > 5 or (not thorough and p + n > 4): continue
+    shapes = sorted(((p, n) for p in (0, 1, 2) for n in (1, 2, 3) if p + n <= (5 if thorough else 4)), key=lambda pn: (pn[0] + pn[1], pn[0]))
+    for constrained in (False, True):
+        for p, n in shapes:
+            for precls in ([()] if p == 0 else [tuple([IAB] * p), tuple([IABCD] * p)]):
                 for cls in itertools.product(body_classes, repeat=n):
                     # up to 2 items carry one non-copy action each
                     for which in [()] + [(i,) for i in range(n)] + [(i, j) for i in range(n) for j in range(i + 1, n)]:
@@ -202,6 +203,7 @@ def single_rules(tier):
                             if len(which) == 0 and n > 1: continue
                             body = [(cls[i], [acts[which.index(i)]] if i in which else []) for i in range(n)]
                             for con in (CONSTRAINTS if (thorough or n == 1) else CONSTRAINTS[:2]):
+                                if (con is not None) != constrained: continue
                                 for ci in ([0] if con is None else range(-p, n) if thorough else [0]):
                                     c = None if con is None else (ci, con[0], con[1], con[2])
                                     yield LRule(list(precls), body, c)
@@ -234,9 +236,14 @@ def pos_rules():
 
 
 def programs(tier):
-    thorough = tier == 'thorough'
+    # the small hand-shaped families first, the bulk enumeration of single rules last
+    for prog in family_programs(tier): yield prog
     for r in single_rules(tier):
         yield dict(kind='single', passes=[dict(rules=[r])], rtl=0)
+
+
+def family_programs(tier):
+    thorough = tier == 'thorough'
     core = core_rules()
     for i, a in enumerate(core):
         for j, b in enumerate(core):
